@@ -773,6 +773,19 @@ inline bool ThreadPool::tryExecuteNextFromRings(size_t& startRing) {
     }
   }
   startRing = 0;
+  // Steal rings: placed scheduling (heavy task cost, futures) hands a task to the steal ring of the
+  // sleeper it claimed.  If that worker (and every other worker polling the ring) picks up a task
+  // that itself waits on the placed task's set before it reaches its steal ring, only a waiter can
+  // run the task -- so waiters must drain the steal rings as well, or the wait never returns.
+  DISPENSO_VERIF_POINT("TpRingsLoadSteal", this);
+  size_t ns = numStealRings_.load(std::memory_order_acquire);
+  for (size_t i = 0; i < ns; ++i) {
+    DISPENSO_VERIF_POINT("TpRingsPopSteal", this);
+    if (stealRings_[i].try_pop(task)) {
+      executeNext(std::move(task));
+      return true;
+    }
+  }
   return false;
 }
 
